@@ -127,67 +127,66 @@ def rule_recook(model):
 
 
 def rule_getstate(model):
-    r = RuleResult('C17.R3', '__getstate__ omits exactly the attributes '
-                   'whose 3-character prefix is _v_ or _p_')
+    r = RuleResult('C17.R3', '__getstate__ omits exactly the volatile '
+                   'attributes (prefix _v_ / _p_) a template can carry '
+                   'and keeps every other one (partial evaluation of '
+                   '__getstate__ over the attribute names the template '
+                   'classes assign)')
+    from .. import miniexec
     fi = model.func('DT_String', 'String.__getstate__')
-    special = None
-    for p in fi.params():
-        d = model.param_default(fi, p)
-        if d is not None:
-            ok, v = model.fold(d, fi)
-            if ok and isinstance(v, tuple) and all(isinstance(x, str)
-                                                   for x in v):
-                special = (p, v)
-    if special is None:
-        raise AnalysisError('__getstate__: prefix tuple not found')
-    pname, prefixes = special
-    r.instance(fi.where, f'{pname} = {prefixes}')
-    if set(prefixes) != {'_v_', '_p_'}:
-        r.finding(fi.where, f'{pname} = {prefixes}', 'the set of volatile '
-                  'prefixes differs from (_v_, _p_): compiled data is '
-                  'pickled or persistent state is dropped', node=fi.node,
-                  ctx=fi)
-    tests = [n for n in own_nodes(fi.node) if isinstance(n, ast.Compare)
-             and norm(n.comparators[0]) == pname]
-    if not tests:
-        raise AnalysisError('__getstate__: prefix test not found')
-    for t in tests:
-        w = None
-        if isinstance(t.left, ast.Subscript) and \
-                isinstance(t.left.slice, ast.Slice) and \
-                t.left.slice.lower is None and \
-                isinstance(t.left.slice.upper, ast.Constant):
-            w = t.left.slice.upper.value
-        r.instance(fi.where, t, f'width {w}')
-        if w is None or any(len(p) != w for p in prefixes):
-            r.finding(fi.where, t, f'the slice width ({w}) does not equal '
-                      'the length of the prefixes: no attribute is ever '
-                      'skipped (or the wrong ones are)', node=t, ctx=fi)
-        par = t._dt_parent
-        pos = isinstance(t.ops[0], ast.In)
-        skipped = False
-        if isinstance(par, ast.If):
-            if pos and par.body and isinstance(par.body[0], ast.Continue):
-                skipped = True          # if prefix in special: continue
-            elif not pos and any(
-                    isinstance(x, ast.Assign) and
-                    isinstance(x.targets[0], ast.Subscript)
-                    for x in par.body) and not par.orelse:
-                skipped = True          # if prefix not in special: d[k] = v
-        elif isinstance(par, ast.comprehension) and not pos:
-            skipped = True              # {k: v ... if prefix not in special}
-        if not skipped:
-            r.finding(fi.where, t, 'attributes with a volatile prefix are '
-                      'not skipped (or everything else is)', node=t,
+    S = model.cls('DT_String', 'String')
+    # every attribute name some method of a template class (String, its
+    # subclasses and their mix-ins) stores on self
+    classes = {S} | set(model.subclasses(S))
+    for c in list(classes):
+        for b_ in c.node.bases:
+            t = model.resolve_name_expr(c.module, b_)
+            if t and t[0] == 'class':
+                classes.add(t[1])
+    keys = set()
+    for c in classes:
+        for m in c.methods.values():
+            for n in ast.walk(m.node):
+                if isinstance(n, ast.Attribute) and isinstance(
+                        n.ctx, ast.Store) and isinstance(
+                        n.value, ast.Name) and n.value.id == 'self':
+                    keys.add(n.attr)
+    volatile = {k for k in keys if k[:3] in ('_v_', '_p_')}
+    if len(keys) < 6 or len(volatile) < 2:
+        raise AnalysisError(f'C17.R3: template attributes not found '
+                            f'({sorted(keys)})')
+    env = {'self.__dict__': {k: f'<{k}>' for k in sorted(keys)}}
+    a_ = fi.node.args
+    pos = a_.posonlyargs + a_.args
+    for p_, d in zip(pos[len(pos) - len(a_.defaults):], a_.defaults):
+        ok, v = model.fold(d, fi)
+        if not ok:
+            raise AnalysisError('__getstate__: default of '
+                                f'{p_.arg} is not constant')
+        env[p_.arg] = v
+    try:
+        state = miniexec.run(fi.node, env, fi.module.globals)
+    except miniexec.Unsupported as exc:
+        raise AnalysisError(f'__getstate__ not understood: {exc}')
+    if not isinstance(state, dict):
+        raise AnalysisError('__getstate__ does not return a dict')
+    kept = set(state)
+    r.instance(fi.where, f'kept {sorted(kept)}')
+    r.instance(fi.where, f'omitted {sorted(keys - kept)}')
+    for k in sorted(kept & volatile):
+        r.finding(fi.where, f'{k} kept', f'the volatile attribute {k} '
+                  '(assigned by a template class) ends up in the pickled / '
+                  'deep-copied state: compiled or cached data is '
+                  'persisted and used instead of being rebuilt',
+                  node=fi.node, ctx=fi)
+    for k in sorted(keys - volatile - kept):
+        r.finding(fi.where, f'{k} omitted', f'the attribute {k} is dropped '
+                  'from the pickled state', node=fi.node, ctx=fi)
+    for k in sorted(kept - volatile):
+        if state[k] != f'<{k}>':
+            r.finding(fi.where, f'{k} changed', f'the value of {k} is '
+                      'replaced in the pickled state', node=fi.node,
                       ctx=fi)
-    # everything else is copied
-    copies = [n for n in own_nodes(fi.node) if (
-        isinstance(n, ast.Assign) and
-        isinstance(n.targets[0], ast.Subscript)) or
-        isinstance(n, ast.DictComp)]
-    if not copies:
-        r.finding(fi.where, 'd[k] = v', 'state is not copied', node=fi.node,
-                  ctx=fi)
     # no subclass overrides it with something else
     S = model.cls('DT_String', 'String')
     for c in model.subclasses(S):
